@@ -230,7 +230,21 @@ class SimHandler : public DirectProtocolHandler {
   std::vector<std::string> diag;
   bool takeFinished(BusRequest* r) { return m_finishedRequests.remove(r); }
   const void* waitCond() { return &m_cond; }
-  void step() { run(); }    // not started as a thread: run() executes exactly one loop iteration
+  // not started as a thread: run() executes exactly one loop iteration, because isRunning() is false at the loop condition.
+  // With steppedReopen the iteration that finds the device invalid may pass its Wait() (two isRunning() calls inside
+  // WaitThread::Wait) and re-open the device, as the started thread would.
+  bool steppedReopen = false;
+  int runningCalls = 0;
+  bool reopenPath = false;
+  bool isRunning() override {
+    if (!steppedReopen) return DirectProtocolHandler::isRunning();
+    if (!reopenPath) return false;
+    return ++runningCalls <= 2;
+  }
+  void step() {
+    if (steppedReopen) { runningCalls = 0; reopenPath = !m_device->isValid() || m_reconnect; }
+    run();
+  }
 };
 
 /** an observable request */
